@@ -124,7 +124,7 @@ Theorem C16_trailing_backslash_refuted : exists s,
 Proof. exists (str "id:1,tag:x\,deny"). split; [exact (proj1 trailing_backslash_witness)|reflexivity]. Qed.
 Print Assumptions C16_trailing_backslash_refuted.
 
-(* new findings of this check *)
+(* findings of this check, listed: F56 c16-quoted-plain-key, F57 c16-unterminated-regex-key *)
 Theorem C16_quoted_plain_key_refuted : exists vars,
   parse_variables vars = Some [mk_tcall false false (str "ARGS") (str "abc'")] /\ vars = str "ARGS:'abc'".
 Proof. exists (str "ARGS:'abc'"). split; [exact (proj1 quoted_plain_key_witness)|reflexivity]. Qed.
@@ -135,19 +135,35 @@ Theorem C16_unterminated_regex_key_refuted : exists vars,
 Proof. exists (str "ARGS:/abc"). split; [exact unterminated_regex_key_witness|reflexivity]. Qed.
 Print Assumptions C16_unterminated_regex_key_refuted.
 
-Theorem C16_dangling_continuation_refuted : exists text d,
-  parse_config [] (text ++ str " \")%list = Some [] /\ parse_config [] text = Some [d].
+(* repaired in /repo (F55): a configuration whose last line ends in a continuation backslash is
+   rejected; before the repair the pending directive was dropped without an error *)
+Theorem C16_reject_dangling_continuation_example : exists text d,
+  parse_config [] (text ++ str " \")%list = None /\ parse_config [] text = Some [d].
 Proof.
   exists (str "SecRule ARGS ""@rx a"" ""id:1,deny"""). destruct (proj2 dangling_continuation_witness) as (d & Hd).
   exists d. split; [exact (proj1 dangling_continuation_witness)|exact Hd].
 Qed.
-Print Assumptions C16_dangling_continuation_refuted.
+Print Assumptions C16_reject_dangling_continuation_example.
 Local Close Scope string_scope.
 
-(* a physical line of 64 KiB or more silently ends the parse: everything after it is ignored *)
-Theorem C16_long_line_truncates_refuted : forall pre l post,
-  forallb (fun x => N.of_nat (List.length x) <? max_line) pre = true ->
-  (N.of_nat (List.length l) <? max_line) = false ->
-  scanner_lines (pre ++ l :: post) = pre.
+(* in any parser state and for any evaluator: a last physical line that ends in a continuation
+   backslash makes parseString fail *)
+Theorem C16_reject_dangling_continuation : forall ev raw a buf g,
+  p_trim_space raw = a ++ [cBS] -> a <> [] -> (hd 0 a =? cHASH) = false ->
+  ps_loop ev [raw] buf false g = None.
+Proof. exact ps_dangling_continuation_rejected. Qed.
+Print Assumptions C16_reject_dangling_continuation.
+
+(* repaired in /repo (F54): a text containing a physical line of 64 KiB or more is rejected as a
+   whole (the scanner delivers only the lines before it and its error is returned); before the
+   repair everything from that line on was ignored without an error *)
+Theorem C16_reject_long_line : forall files text,
+  scanner_truncated (split_lines text) = true -> parse_config files text = None.
+Proof. exact parse_config_long_line_rejected. Qed.
+Print Assumptions C16_reject_long_line.
+
+Theorem C16_long_line_scanner : forall pre l post,
+  forallb line_fits pre = true -> line_fits l = false ->
+  scanner_lines (pre ++ l :: post) = pre /\ scanner_truncated (pre ++ l :: post) = true.
 Proof. exact scanner_lines_truncates. Qed.
-Print Assumptions C16_long_line_truncates_refuted.
+Print Assumptions C16_long_line_scanner.
